@@ -50,10 +50,29 @@ def get_class(name):
     return getattr(C, name)
 
 
+def touch(code):
+    """Read every lazily cached derived datum of a code object."""
+    for a in ('qubit_index', 'stabilizer_index', 'stabilizer_matrix', 'logicals_x', 'logicals_z',
+              'x_indices', 'z_indices', 'is_css', 'd', 'k', 'n', 'Hx', 'Hz', 'stabilizer_types'):
+        try:
+            getattr(code, a)
+        except ValueError:
+            pass                # Hx/Hz on a non-CSS code: refusal is by design
+
+
 def build(cfg):
-    """cfg = {'cls': name, 'size': [..], 'deformation': None | [name, kwargs]}"""
+    """cfg = {'cls': name, 'size': [..], 'deformation': None | [name, kwargs], 'pre': None | 'used'}
+    pre == 'used': the object has a history before the final deform — all derived data read, deformed by
+    another offered deformation (the last one offered that differs from the target), all derived data read
+    again — as a long-lived object in a session would."""
     code = get_class(cfg['cls'])(*cfg['size'])
     d = cfg.get('deformation')
+    if cfg.get('pre') == 'used':
+        touch(code)
+        others = [o for o in deformations(cfg['cls']) if o != d]
+        if others:
+            code.deform(others[-1][0], **others[-1][1])
+            touch(code)
     if d:
         code.deform(d[0], **d[1])
     return code
@@ -108,7 +127,7 @@ def deformations(name):
     return out
 
 
-def configs(max_n, classes=None, l_max=None, min_count=3, deformed=True):
+def configs(max_n, classes=None, l_max=None, min_count=3, deformed=True, used=False):
     out = []
     for name in (classes or CLASSES):
         for s in sizes(name, max_n, l_max, min_count):
@@ -116,12 +135,15 @@ def configs(max_n, classes=None, l_max=None, min_count=3, deformed=True):
             if deformed:
                 for d in deformations(name):
                     out.append({'cls': name, 'size': s, 'deformation': d})
+                    if used:
+                        out.append({'cls': name, 'size': s, 'deformation': d, 'pre': 'used'})
     return out
 
 
 def cfg_label(cfg):
     d = cfg.get('deformation')
-    return '%s%s%s' % (cfg['cls'], tuple(cfg['size']), '' if not d else '+%s%s' % (d[0], d[1] or ''))
+    return '%s%s%s%s' % (cfg['cls'], tuple(cfg['size']), '' if not d else '+%s%s' % (d[0], d[1] or ''),
+                         '[used object]' if cfg.get('pre') else '')
 
 
 # Configurations that an open C01 finding marks as not-a-valid-code.  Checks that presuppose a
